@@ -192,6 +192,9 @@ def convPaddingCheck (padding : Val) : Except PyErr Unit :=
   | .bytes _ => .error .valueError
   | _ => .ok ()
 
+/-- Conv2d: `if isinstance(x, int): x = (x, x)` -/
+def pairInt (v : Val) : Val := if isPyInt v then .tuple [v, v] else v
+
 /-- `__post_init__`, per class, on the bound fields. Returns the finished node. -/
 def postInit (kind : String) (f : List (String × Val)) : Except PyErr Node := do
   let get (k : String) : Except PyErr Val :=
@@ -249,10 +252,9 @@ def postInit (kind : String) (f : List (String × Val)) : Except PyErr Node := d
   | "Conv2d" =>
       let padding ← get "padding"
       convPaddingCheck padding
-      let pair (v : Val) : Val := if isPyInt v then .tuple [v, v] else v
-      let padding := pair padding
-      let stride := pair (← get "stride")
-      let dilation := pair (← get "dilation")
+      let padding := pairInt padding
+      let stride := pairInt (← get "stride")
+      let dilation := pairInt (← get "dilation")
       let plain := insert "dilation" dilation (insert "stride" stride (insert "padding" padding plain))
       let inputShape ← get "input_shape"
       match inputShape with
